@@ -204,19 +204,18 @@ theorem optStrings_total {r : Out (List Bytes)} (h : r.isPanic = false) : (optSt
   | err c => split <;> simp_all [Out.isPanic]
   | panic s => simp [Out.isPanic] at h
 
-theorem fileDigestNew_total (a : Nat) (hex : Bytes) : (fileDigestNew a hex).isPanic = false := by
+theorem fileDigestNew_total (a : Nat) (hex : Bytes) (tbl : List (Nat × Nat)) : (fileDigestNew a hex tbl).isPanic = false := by
   unfold fileDigestNew
-  dsimp only
-  split <;> (split <;> rfl)
+  split <;> rfl
 
-theorem digestOf_total (a : Nat) (d : Bytes) : (digestOf a d).isPanic = false := by
+theorem digestOf_total (a : Nat) (d : Bytes) (tbl : List (Nat × Nat)) : (digestOf a d tbl).isPanic = false := by
   unfold digestOf; split
   · rfl
-  · exact map_total (fileDigestNew_total _ _)
+  · exact map_total (fileDigestNew_total _ _ _)
 
-theorem buildEntries_total (algo : Nat) (caps ima : Option (List Bytes)) (idx : Nat)
+theorem buildEntries_total (algo : Nat) (caps ima : Option (List Bytes)) (tbl : List (Nat × Nat)) (idx : Nat)
     (ps us gs : List Bytes) (ms : List Nat) (ds : List Bytes) (ts ss fs : List Nat) (ls : List Bytes) :
-    (buildEntries algo caps ima idx ps us gs ms ds ts ss fs ls).isPanic = false := by
+    (buildEntries algo caps ima tbl idx ps us gs ms ds ts ss fs ls).isPanic = false := by
   induction ps generalizing idx us gs ms ds ts ss fs ls with
   | nil => unfold buildEntries; rfl
   | cons p ps ih =>
@@ -224,12 +223,13 @@ theorem buildEntries_total (algo : Nat) (caps ima : Option (List Bytes)) (idx : 
       first
       | (unfold buildEntries; rfl)
       | (unfold buildEntries
-         refine Out.bind_not_panic (digestOf_total _ _) (fun dg _ => ?_)
+         refine Out.bind_not_panic (digestOf_total _ _ _) (fun dg _ => ?_)
          dsimp only
          exact Out.bind_not_panic (ih _ _ _ _ _ _ _ _ _) (fun _ _ => rfl))
 
 /-- `get_file_entries` never panics: its `unreachable!()` arm is dead code -/
-theorem getFileEntries_total (sig h : Header) : (getFileEntries sig h).isPanic = false := by
+theorem getFileEntries_total (sig h : Header) (tbl : List (Nat × Nat) := Gen.fileDigestHexLen) :
+    (getFileEntries sig h tbl).isPanic = false := by
   unfold getFileEntries
   simp only
   split
@@ -256,7 +256,7 @@ theorem getFileEntries_total (sig h : Header) : (getFileEntries sig h).isPanic =
           · rfl
           · exact getWith_not_panic IndexData.asU32Array h IndexTag.RPMTAG_FILESIZES
         split
-        · exact Out.bind_not_panic (C05.getFilePaths_total h) (fun _ _ => buildEntries_total _ _ _ _ _ _ _ _ _ _ _ _ _)
+        · exact Out.bind_not_panic (C05.getFilePaths_total h) (fun _ _ => buildEntries_total _ _ _ _ _ _ _ _ _ _ _ _ _ _)
         · rename_i hne
           refine Out.bind_not_panic p1 (fun m1 e1 => Out.bind_not_panic p2 (fun m2 e2 => Out.bind_not_panic p3 (fun m3 e3 =>
             Out.bind_not_panic p4 (fun m4 e4 => Out.bind_not_panic p5 (fun m5 e5 => Out.bind_not_panic p8 (fun m6 e6 =>
